@@ -178,9 +178,11 @@ impl BlockRangeExt for BlockRange {
         let start = *self.start();
         let end = *self.end();
 
-        let Some(adjusted_end) = start.saturating_add(limit).checked_sub(1) else {
+        let Some(limit_minus_one) = limit.checked_sub(1) else {
+            // limit == 0, which is an empty range
             return RangeInclusive::new(1, 0);
         };
+        let adjusted_end = start.saturating_add(limit_minus_one);
 
         start..=u64::min(end, adjusted_end)
     }
